@@ -49,11 +49,15 @@ package keeper
 //@ func (k Keeper).DivvyingTips(ctx, reporterAddr, reward, queryId, height) (err)
 //@ requires [origins_present] has(reporter.Report, pair(queryId, pair(reporterAddr, height))) ==> forall j in [0, len(rec(queryId, reporterAddr, height).TokenOrigins)) :: rec(queryId, reporterAddr, height).TokenOrigins[j] != nil
 //@ requires [recorded_total_positive] has(reporter.Report, pair(queryId, pair(reporterAddr, height))) ==> rec(queryId, reporterAddr, height).Total > 0
+//@ requires [reward_and_rate_in_range] reward >= 0 && 0 <= reporter.Reporters[bytes(reporterAddr)].CommissionRate && reporter.Reporters[bytes(reporterAddr)].CommissionRate <= 100000000000000000000
+//@ requires [recorded_amounts_non_negative] has(reporter.Report, pair(queryId, pair(reporterAddr, height))) ==> forall j in [0, len(rec(queryId, reporterAddr, height).TokenOrigins)) :: rec(queryId, reporterAddr, height).TokenOrigins[j].Amount >= 0
 //@ modifies reporter.SelectorTips
+//@ ensures [no_credit_is_negative] forall s bytes :: get0(reporter.SelectorTips, s) >= get0(old(reporter.SelectorTips), s)
 //@ ensures [commission_credited_to_the_reporter_exactly_once] err == nil ==> get0(reporter.SelectorTips, bytes(reporterAddr)) == get0(old(reporter.SelectorTips), bytes(reporterAddr)) + own_shares(reward, reporterAddr, queryId, height, len(rec(queryId, reporterAddr, height).TokenOrigins)) + (has_own_origin(reporterAddr, queryId, height, len(rec(queryId, reporterAddr, height).TokenOrigins)) ? commission_of(reward, reporterAddr) : 0)
 //@ loop 0 "for _, del := range delAddrs.TokenOrigins"
 //@ loop 0 invariant [reporter_credit_so_far] get0(reporter.SelectorTips, bytes(reporterAddr)) == get0(old(reporter.SelectorTips), bytes(reporterAddr)) + own_shares(reward, reporterAddr, queryId, height, $i) + (has_own_origin(reporterAddr, queryId, height, $i) ? commission_of(reward, reporterAddr) : 0)
 //@ loop 0 invariant [commission_paid_iff_own_origin_seen] commissionPaid <==> has_own_origin(reporterAddr, queryId, height, $i)
+//@ loop 0 invariant [no_credit_is_negative] forall s bytes :: get0(reporter.SelectorTips, s) >= get0(old(reporter.SelectorTips), s)
 
 // ---- entry points used by the dispute module: abstract (trusted) frames ----
 // These functions move stake between delegations, unbonding entries and the staking pools. Their bodies are not
